@@ -40,7 +40,7 @@ func init() {
 			"(D6) message-field agreement: the sealer fills Cid/DevicePk/Counter/Sig/EncryptedPayload of the push message from id/headers.DevicePk/headers.Counter/headers.Sig/env.Message, seals the marshalled push message with the group secret (the opener opens with the group's shared secret, the envelope's own Nonce and Box) and stores in the envelope the nonce and box of that very Seal call; the headers rebuilt on the push path map field to same-named field; helpers shared by the log path and the push path receive device key, group key and counter in the same argument positions on both. " +
 			"(D7) atomic window update: behind UpdateOutOfStoreGroupReferences the read of the recorded first/last counters, every Put/Delete of a reference and the write of the new first/last record run with the store's message mutex write-locked on every call path, and the mutex is not released between two of them (read-modify-write of the window in one critical section). " +
 			"(D8) the window follows authenticated messages only: every call of UpdateOutOfStoreGroupReferences with a message's Counter is dominated on every call path by the accepting side of the call that opened and authenticated that message (OpenEnvelopePayload on the log path, a function whose success returns all pass an accepted Verify on the push path). " +
-			"(D9) registration window: a call of UpdateOutOfStoreGroupReferences whose counter is not a message's Counter must read it from the very DeviceChainKey value that is written to the chain-key namespace before the call (or from a chain key read from the store); the written value is tracked through module helpers (a helper that stores its parameter: the argument; a helper that stores a key it computed: the value it returns on every success return, nil meaning nothing written), to depth 3: the window is centred on the persisted, window-advanced counter, which is what puts every precomputed key of a newly registered sender inside it; a counter of any other origin is an analysis failure. " +
+			"(D9) registration window: a call of UpdateOutOfStoreGroupReferences whose counter is not a message's Counter must read it from the very DeviceChainKey value that is written to the chain-key namespace before the call (or from a chain key read from the store); the written value is tracked through module helpers (a helper that stores its parameter: the argument; a helper that stores a key it computed: the value it returns on every success return, nil meaning nothing written, whatever other results accompany it), to depth 3, looking through local cells such as named results spilled by a defer: the window is centred on the persisted, window-advanced counter, which is what puts every precomputed key of a newly registered sender inside it; a counter of any other origin is an analysis failure. " +
 			"D2's Verify clauses are judged per push-path call site: parameters of a (shared) helper are mapped to the arguments of the call chain that starts at the push entry point, never to the union of all callers. " +
 			"Not decided: the window statement for all histories (loop arithmetic over runtime data), absence of network access, that NaCl/Ed25519 reject every altered bit, equality of payload bytes for all sizes.",
 		Trusted:     []string{"nacl/secretbox, Ed25519 (libp2p crypto), HKDF/SHA3", "go/packages+go/ssa (x/tools v0.29.0)", "go-datastore Get/Put/Delete semantics", "effects identified by the namespace constants of pkg/secretstore"},
@@ -2055,7 +2055,7 @@ func c14D9(c *Ctx, ei *effectInfo, updR *ssa.Function) {
 			default:
 				same := len(written) > 0
 				for _, wv := range written {
-					if !c14SameObject(stripConv(wv), stripConv(base)) {
+					if !c14SameValue(wv, base) {
 						same = false
 					}
 				}
@@ -2108,6 +2108,9 @@ func c14StoredAtSite(ei *effectInfo, fn *ssa.Function, s effectSite, depth int) 
 		}
 		for _, iv := range inner {
 			iv = c14Resolve(stripConv(iv), 0)
+			if cv := c14CellValues(iv, 0); len(cv) == 1 {
+				iv = cv[0] // a local cell (named result, spilled variable) that only ever holds one value
+			}
 			if p, isParam := iv.(*ssa.Parameter); isParam && p.Parent() == callee {
 				if idx := c14ParamIndex(p); idx >= 0 && idx < len(call.Common().Args) {
 					vals = append(vals, call.Common().Args[idx])
@@ -2132,8 +2135,9 @@ func c14StoredAtSite(ei *effectInfo, fn *ssa.Function, s effectSite, depth int) 
 				}
 				rv := stripConv(retResults(r)[ridx])
 				switch {
-				case isNilConst(rv):
-				case c14SameObject(rv, iv):
+				case isNilConst(rv) || len(c14CellValues(rv, 0)) == 0:
+					// nil chain key: nothing was written on this path (whatever the other results say)
+				case c14SameValue(rv, iv):
 					returned = true
 				default:
 					return nil, fnName(callee) + " has a success return that yields another chain key than the one it stored"
@@ -2153,4 +2157,75 @@ func c14StoredAtSite(ei *effectInfo, fn *ssa.Function, s effectSite, depth int) 
 		return nil, "no chain-key write found inside " + fnName(callee)
 	}
 	return vals, ""
+}
+
+// c14CellValues: the non-nil values v can denote, looking through loads of local cells
+// (variables and named results that go/ssa keeps in an Alloc, e.g. results spilled because of a
+// defer): flow-insensitively the values stored into the cell, nil constants and self-copies
+// left out. A value that is not such a load denotes itself. An empty result means "only nil".
+func c14CellValues(v ssa.Value, depth int) []ssa.Value {
+	v = stripConv(v)
+	if isNilConst(v) {
+		return nil
+	}
+	ld, ok := v.(*ssa.UnOp)
+	if !ok || ld.Op != token.MUL || depth > 4 {
+		return []ssa.Value{v}
+	}
+	al, ok := ld.X.(*ssa.Alloc)
+	if !ok || al.Referrers() == nil {
+		return []ssa.Value{v}
+	}
+	var stores []*ssa.Store
+	for _, r := range *al.Referrers() {
+		switch u := r.(type) {
+		case *ssa.Store:
+			if u.Addr != ssa.Value(al) {
+				return []ssa.Value{v} // the cell's address escapes
+			}
+			stores = append(stores, u)
+		case *ssa.UnOp, *ssa.DebugRef:
+		default:
+			return []ssa.Value{v} // address taken, captured by a closure, field access: not a plain cell
+		}
+	}
+	var out []ssa.Value
+	seen := map[ssa.Value]bool{}
+	for _, st := range stores {
+		sv := stripConv(st.Val)
+		if l2, ok := sv.(*ssa.UnOp); ok && l2.Op == token.MUL && l2.X == ssa.Value(al) {
+			continue // the cell copied onto itself (result spill before a return)
+		}
+		for _, x := range c14CellValues(sv, depth+1) {
+			if !seen[x] {
+				seen[x] = true
+				out = append(out, x)
+			}
+		}
+	}
+	return out
+}
+
+// c14SameValue: a and b denote the same object, looking through local cells: both denote the
+// same non-empty set of values (pairwise the same object).
+func c14SameValue(a, b ssa.Value) bool {
+	if c14SameObject(stripConv(a), stripConv(b)) {
+		return true
+	}
+	as, bs := c14CellValues(a, 0), c14CellValues(b, 0)
+	if len(as) == 0 || len(as) != len(bs) {
+		return false
+	}
+	for _, x := range as {
+		found := false
+		for _, y := range bs {
+			if c14SameObject(x, y) {
+				found = true
+			}
+		}
+		if !found {
+			return false
+		}
+	}
+	return true
 }
